@@ -5,7 +5,7 @@ HERE = os.path.dirname(os.path.dirname(os.path.abspath(__file__)))
 
 # id -> (level, technique, level text, level note, design ref)
 CHECKS = {
- "C01": ("exploration", "property-based testing (proptest) against a reference retrace model computed from the generated mapping AST (and from corpus files via an independent strict line recogniser); metamorphic renderings; complete enumerated by-line query universe incl. frame-file values; every mapper constructor; structured scale mappings crossing 256/4096/65536 thresholds; every way of consuming the result iterator (nth/skip/step_by/count/last/clone/size_hint) against next(); notation variants of known names as queries",
+ "C01": ("exploration", "property-based testing (proptest) against a reference retrace model computed from the generated mapping AST (and from corpus files via an independent strict line recogniser); metamorphic renderings; complete enumerated by-line query universe incl. frame-file values; every mapper constructor; structured scale mappings crossing 256/4096/65536 thresholds; every way of consuming the result iterator (nth/skip/step_by/count/last/clone/size_hint) against next(); notation variants of known names as queries; dense sweeps (every scale kind for n = 1..40, re-declared class names in 2..48+ blocks)",
    "Generated-input search: every by-line query of the finite universe of each generated mapping, in three renderings, for mapper, mapper-with-params and cache, must equal the answer of a reference model written from the property statement. Exploration: holds on everything generated, no proof.",
    "Trusts the reference model (formulas of the statement; cross-checked mapper vs cache) and the generator's domain (non-empty names, numbers < 2^32-1). Buffers 8-byte aligned.", "DESIGN.md §4 C01"),
  "C02": ("exploration", "property-based differential testing (proptest): mapper vs cache over the complete enumerated query universe of generated, token-mutated, tall, scale and corpus mappings; all mapper constructors; model-based history stage (random repeated query sequences on long-lived objects vs fresh ones); big traces (deep chains, >16 KiB, parameter frames)",
@@ -29,7 +29,7 @@ CHECKS = {
  "C08": ("exploration", "property-based testing (proptest): structural preservation oracle built from single-element lookups, typed<->text agreement on canonical traces",
    "Generated-input search over mappings x typed traces with mapped and unmapped throwables/frames and cause chains.",
    "Element lookups (remap_throwable, remap_frame) are trusted here and covered by C01/C04.", "DESIGN.md §4 C08"),
- "C09": ("exploration", "property-based testing (proptest) with an independent layout decoder and AST-derived expected records; corpus files",
+ "C09": ("exploration", "property-based testing (proptest) with an independent layout decoder and AST-derived expected records; corpus files; single strings at the 2^21 and 2^28-byte length-prefix boundaries",
    "Generated-input search: every written file is decoded by a decoder written only from the format documentation and checked for all layout/ordering invariants, equality with the records derived from the AST, and the library's self-test.",
    "Decoder hard-codes format version 1 as documented in src/cache/mod.rs.", "DESIGN.md §4 C09"),
  "C10": ("exploration", "property-based differential testing (proptest) of two releases: frozen pinned 5.5.0 copy vs working tree, both writers x both readers on the same bytes, incl. odd and zero-length names",
@@ -44,19 +44,19 @@ CHECKS = {
  "C13": ("exploration", "property-based testing (proptest) / fuzzing of the whole pipeline with hostile numbers, mutants, raw bytes, scale mappings and every mapper constructor; no-panic/no-error oracle; deep inputs answered in a child process so that a stack overflow (an abort, not a panic) is attributed; libFuzzer stage in thorough",
    "Generated-input search; thorough adds a coverage-guided libFuzzer campaign over the same pipeline.",
    "Overflow observable through overflow-checks in the harness profile.", "DESIGN.md §4 C13"),
- "C14": ("exploration", "property-based testing (proptest) with byte-equality oracle across repeated writes, 8 threads, 8 separately started processes, 8 buffer alignments, after failed writes on the same thread, and through section() in both orders; children under varied environments and rotated write histories; degenerate (zero-length-name) and hostile-mutant mappings; length law from the layout model",
+ "C14": ("exploration", "property-based testing (proptest) with byte-equality oracle across repeated writes, 8 threads, 8 separately started processes, 8 buffer alignments, after failed writes on the same thread, and through section() in both orders; children under varied environments and rotated write histories; degenerate (zero-length-name) and hostile-mutant mappings; sinks that panic (caught) before the next write; a helper process with a skewing global allocator (byte buffers at addresses = k mod 8); length law from the layout model",
    "Generated-input search over mappings and corpus files; all serialisations of the same bytes must be identical across hash seeds, threads and processes.",
    "One platform only.", "DESIGN.md §4 C14"),
  "C15": ("fault_enumeration", "fault enumeration with scripted std::io::Write sinks (chunk limits, short-once, fail, interrupt at every call index; short+fail, short+interrupt; write_vectored sinks; fixed-capacity sinks returning Ok(0); one-shot errors of seven kinds; interruption bursts of 2..64 at every call index, n interruptions before every call, interruption directly followed by a failure) over generated and sized mappings",
    "Per generated mapping the sink fault space is enumerated (every call index; k=1..16); oracle: canonical bytes on success, Err on sink failure, accepted bytes always a prefix.",
    "Sinks obey the Write contract. Complete per mapping for call indices; shortened lengths sampled for large writes.", "DESIGN.md §4 C15"),
- "C16": ("exploration", "property-based testing (proptest) from descriptor ASTs, bounded-exhaustive small descriptors, precise unterminated variants, single-edit corruptions, mapper==cache",
+ "C16": ("exploration", "property-based testing (proptest) from descriptor ASTs, bounded-exhaustive small descriptors, precise unterminated variants, single-edit corruptions, mapper==cache; exhaustive sweeps of array rank 1..255, parameter count 0..300, name length 1..300",
    "Generated and bounded-exhaustive search over the descriptor language; expected rendering computed from the AST and the reference class table.",
    "exhaustive=true refers to the 1813 small descriptors only.", "DESIGN.md §4 C16"),
  "C17": ("exploration", "property-based round-trip testing (proptest): try_parse(print(T)) == T and print idempotence; libFuzzer stage in thorough (from the text side: whatever parses into the domain must survive print -> parse -> print)",
    "Generated-input search over typed traces, frames and throwables in the statement's domain.",
    "Domain predicate taken from the statement.", "DESIGN.md §4 C17"),
- "C18": ("exploration", "property-based testing (proptest) against an independent SHA-1/UUIDv5 implementation; LF/CRLF metamorphic check; cross-process equality; stateful API sequences (in-place and permutation edits of one buffer, section()/clone() after uuid(), also on 17..130 MiB buffers incl. a new buffer at the address of a freed one); children under varied environments",
+ "C18": ("exploration", "property-based testing (proptest) against an independent SHA-1/UUIDv5 implementation; LF/CRLF metamorphic check; cross-process equality; stateful API sequences (in-place and permutation edits of one buffer, section()/clone() after uuid(), also on 17..130 MiB buffers incl. a new buffer at the address of a freed one, finite-difference edits preserving weighted checksums); Default objects; children under varied environments",
    "Generated-input search over byte strings, mappings and corpus files; ids compared with an independent computation self-tested against published vectors.",
    "SHA-1 model verified against FIPS 180 vectors and the repository's five literal ids.", "DESIGN.md §4 C18"),
  "C19": ("exploration", "property-based testing (proptest) with truth computed from the generated line list and the fold over the public record iterator; fold-only stage for mid-line records and grey-zone values; evidence behind 65536 lines / 65 MiB; metadata headers 17 / 33 MiB apart; section() after the parent was queried",
